@@ -10,6 +10,8 @@ import vlib
 
 SWEEP = 'harness/c03_sweep.cpp'
 FUZZ = 'harness/c03_fuzz.cpp'
+# hook H4: tiny parser / PBF decoder buffers, so that the buffer grows (and moves) at almost every builder call of the parsers
+SMALL = ['OSMIUM_VERIF_PARSER_BUFFER_SIZE=1024', 'OSMIUM_VERIF_PBF_BUFFER_SIZE=256']
 # fuzz targets: (format string given to osmium::io::File, dictionary)
 TARGETS = [('osm', 'osm.dict'), ('osc', 'osm.dict'), ('pbf', 'pbf.dict'), ('opl', 'opl.dict'), ('o5m', 'o5m.dict'), ('o5c', 'o5m.dict'),
            ('osm.gz', None), ('opl.bz2', None), ('o5m.gz', None), ('pbf.gz', None)]
@@ -21,6 +23,7 @@ def _fuzz_spec(fmt, dbg):
 
 def builds(tier):
     b = [dict(src=SWEEP, variant='asan'), dict(src=SWEEP, variant='asan-dbg')]
+    b.append(dict(src=SWEEP, variant='asan', defines=SMALL, name='c03_sweep_smallbuf'))
     b += [_fuzz_spec(fmt, False) for fmt, _ in TARGETS]
     b += [_fuzz_spec(fmt, True) for fmt, _ in TARGETS[:6]]
     return b
@@ -97,9 +100,9 @@ def run(chk):
     T = chk.thorough()
     specs = builds(chk.tier)
     bins = vlib.build_many(specs)
-    asan, asan_dbg = bins[0], bins[1]
-    fuzz_bins = dict(zip([fmt for fmt, _ in TARGETS], bins[2:2 + len(TARGETS)]))
-    fuzz_dbg_bins = dict(zip([fmt for fmt, _ in TARGETS[:6]], bins[2 + len(TARGETS):]))
+    asan, asan_dbg, asan_small = bins[0], bins[1], bins[2]
+    fuzz_bins = dict(zip([fmt for fmt, _ in TARGETS], bins[3:3 + len(TARGETS)]))
+    fuzz_dbg_bins = dict(zip([fmt for fmt, _ in TARGETS[:6]], bins[3 + len(TARGETS):]))
     env = dict(os.environ, **vlib.SAN_ENV)
     p = subprocess.run([asan, '--mode', 'count', '--seed', str(chk.seed), '--tier', chk.tier], stdout=subprocess.PIPE, text=True, env=env)
     try:
@@ -114,6 +117,11 @@ def run(chk):
                    'single-byte substitutions (%s)' % variant)
         chk.absorb(vlib.run_sharded(binary, 400000 if T else 12000, chk.seed, chk.tier, ['--mode', 'smart'], tag='c03m', stall_s=300, timeout=7200),
                    'seeded structure-aware mutations (%s)' % variant)
+    # ---- the same inputs with tiny parser buffers (growth/move at almost every builder call)
+    chk.absorb(vlib.run_sharded(asan_small, nevil, chk.seed, chk.tier, ['--mode', 'evil'], tag='c03es', stall_s=300), 'crafted slot mutations (tiny parser buffers)')
+    chk.absorb(vlib.run_sharded(asan_small, nprefix, chk.seed, chk.tier, ['--mode', 'prefix'], tag='c03ps', stall_s=300), 'every prefix (tiny parser buffers)')
+    chk.absorb(vlib.run_sharded(asan_small, 200000 if T else 8000, chk.seed + 5, chk.tier, ['--mode', 'smart'], tag='c03ms', stall_s=300, timeout=7200),
+               'seeded structure-aware mutations (tiny parser buffers)')
     # ---- coverage-guided fuzzing (clang libFuzzer + ASan + UBSan), artifacts re-run one per process
     d = vlib.scratch_dir('c03fuzz')
     executed = 0
